@@ -38,7 +38,8 @@ type icConfig struct {
 }
 
 var icPool = []string{"fmt", "os", "io", "strings", "math/rand", "crypto/rand", "text/template", "html/template",
-	"example.com/a", "example.com/b/rand", "github.com/x/fmt", "github.com/x/y", "gopkg.in/yaml.v2"}
+	"example.com/a", "example.com/b/rand", "github.com/x/fmt", "github.com/x/y", "gopkg.in/yaml.v2",
+	"B/x"} // sorts before "C": a blank or dot import of it is processed before the cgo import
 
 func icDefaultName(p string) string {
 	if p == "gopkg.in/yaml.v2" {
